@@ -267,7 +267,7 @@ def lower_model_tree(t, elems, model, consts):
         return sd.lookup(lower_model_tree(t[1], elems, model, consts), t[2])
     if k == "delay":
         kk = t[2]
-        dur = elems[kk[1]] if isinstance(kk, list) else float(Decimal(str(kk)) * Decimal(str(model.dt)))
+        dur = elems[kk[1]] if isinstance(kk, list) else float(Decimal(str(kk)) * Decimal(str(getattr(model, "_vf_dt", model.dt))))
         init = None if t[3] is None else num(t[3])
         return sd.delay(model, elems[t[1]], dur, init)
     if k == "smooth":
@@ -317,6 +317,7 @@ def build_dsl(case, name="m"):
         model = Model(starttime=float(late[0]), stoptime=float(late[0]) + 10.0, dt=float(late[1]), name=name)
     else:
         model = Model(starttime=g[0], stoptime=g[-1], dt=float(case["dt"]), name=name)
+    model._vf_dt = float(case["dt"])  # durations given as multiples of dt refer to the dt the model is run with
     elems = {}
     for c in case["constants"]:
         e = model.constant(c["name"])
